@@ -103,8 +103,11 @@ def gen_op(rnd, s, u):
 
     # tasks sitting in a released (detached) tree: re-attaching them, or parts of them, is the follow-up the
     # removal paths have to survive (stale owners, stale ids)
-    loose = [k for k in T if s['T'][k]['owner'] is None]
-    members = [k for k in T if s['T'][k]['owner'] is not None]
+    reachable = set()
+    for w_, r_ in s['R'].items():
+        reachable.update(reach(s, r_))
+    loose = [k for k in T if k not in reachable]          # by reachability, not by what Task.wbs claims
+    members = [k for k in T if k in reachable]
     if loose and members and rnd.random() < 0.07:
         a, b = rnd.choice(loose), rnd.choice(members)
         r = rnd.random()
@@ -112,7 +115,7 @@ def gen_op(rnd, s, u):
             return ['parent=', a, b]
         if r < 0.8:
             return ['append', ['t', b], a]
-        if r < 0.9:
+        if r < 0.9 and s['T'][b]['owner'] is not None:
             return ['append', ['w', s['T'][b]['owner']], a]
         return ['floordiv', ['t', b], [a], True]
     # attempts that would close a dependency cycle (through either API side) on link-dense graphs: all must be rejected
@@ -486,7 +489,21 @@ def run_history(prop, spec, ops, acc, gen=None, tail=True, judge_from=0, layer='
     corrupt = False
     s_after = snap(u)
     prefix = []
-    if ops is None and gen[0].random() < 0.45:
+    if ops is None and len(s_after['T']) >= 4 and gen[0].random() < 0.1:
+        # scenario prefix "id recycled after a removal": a three-level branch is removed by one of the removal paths, a
+        # new task re-uses the id of the removed leaf inside the WBS, then the old leaf (or its parent) comes back
+        rnd = gen[0]
+        r_, a_, b_, c_ = list(s_after['T'])[:4]
+        w_ = rnd.choice(list(s_after['R']))
+        prefix = [['append', ['w', w_], r_], ['append', ['w', w_], a_], ['append', ['t', a_], b_], ['append', ['t', b_], c_]]
+        prefix.append(rnd.choice([['wbs.remove', w_, a_], ['lremove', ['w', w_], a_], ['children=', ['w', w_], [r_], 'list'],
+                                  ['wbs.remove_all', w_, {'kind': 'id', 'id': s_after['T'][a_]['id']}], ['wbs.remove', w_, b_]]))
+        victim = rnd.choice([c_, c_, b_])
+        prefix.append(['new', s_after['T'][victim]['id'], 'n0', {'parent': r_}])
+        prefix.append(rnd.choice([['parent=', victim, r_], ['append', ['t', r_], victim], ['append', ['w', w_], victim],
+                                  ['insert', ['t', r_], 0, victim], ['floordiv', ['t', r_], [victim], True]]))
+        n += len(prefix)
+    elif ops is None and gen[0].random() < 0.45:
         # builder prefix: a WBS tree with chains (depth up to 4) so that deep states are common starting points
         rnd = gen[0]
         labs = list(s_after['T'])
